@@ -1158,6 +1158,33 @@ class Context:
                 c = I.cell(v)
                 return VBool(c.cls is not None and any(k.name == name for k in c.cls.mro(self.repo)))
             return VBool(False)
+        if fn == 'in_closure':
+            # in_closure(f, lambda: expr): expr holds for the events produced when the callable f (a closure registered by the
+            # function under verification, e.g. handed to execDetached) is later invoked with no arguments
+            f = I.ev(node.args[0], frame)
+            lam = node.args[1]
+            if isinstance(f, VOpaque) and f.label == 'missing':
+                self.qcount += 1
+                return VBool(z3.Const('missing-closure!%d' % self.qcount, T.B))
+            if not isinstance(f, (VClosure, VFunc)):
+                raise Unsupported('in_closure: not a closure of the verified text: %r' % (f,), node)
+            saved = I.st
+            tmp = saved.snapshot()
+            tmp.trace = []
+            I.st = tmp
+            pure0 = I.pure
+            I.pure = 0
+            try:
+                try:
+                    I.call(f, [], {}, node, frame)
+                except PyExc:
+                    pass
+                I.pure = pure0
+                saved.counter = max(saved.counter, tmp.counter)
+                return I.ev(lam.body, frame)
+            finally:
+                I.pure = pure0
+                I.st = saved
         if fn == 'event_kwarg':
             name = self.const_str(I, I.ev(node.args[0], frame))
             k = VInt(I.as_int(I.ev(node.args[1], frame))).const()
